@@ -333,8 +333,8 @@ Proof.
   intros mc rp t ib mb R T I M F.
   destruct (predicate_exact (rp_codes rp) F) as [ks [E A]].
   eexists. split.
-  - unfold emit_entry. rewrite T, R. unfold emit_policy. rewrite I, M, E. reflexivity.
-  - unfold effective, truthy. simpl.
+  - unfold emit_entry, entry_info. rewrite T, R. unfold parse_policy. rewrite I, M, E. reflexivity.
+  - unfold effective, render_retry, truthy. simpl.
     repeat split; try reflexivity.
     + destruct (Qeq_bool ib 0); reflexivity.
     + destruct (Qeq_bool mb 0); reflexivity.
@@ -344,7 +344,7 @@ Qed.
 
 Lemma table_no_policy : forall mc t,
   mc_retry mc = None -> parse_timeout (mc_timeout mc) = inr t -> emit_entry (Some mc) = GenOk (mkE None t).
-Proof. intros mc t R T. unfold emit_entry. now rewrite T, R. Qed.
+Proof. intros mc t R T. unfold emit_entry, entry_info. now rewrite T, R. Qed.
 
 (* ------------------------------------------------------------------ the retry loop *)
 Fixpoint qsum (l : list Q) : Q := match l with [] => 0 | x :: r => x + qsum r end.
